@@ -2,6 +2,7 @@ package main
 
 import (
 	"fmt"
+	"github.com/buildkite/go-pipeline/warning"
 	"math/rand/v2"
 	"reflect"
 	"sort"
@@ -864,8 +865,129 @@ func c16OrderedPhase(c *run.Ctx) {
 	})
 }
 
+// A member whose elements decode themselves and may answer with a warning: the key still goes to exactly one
+// place (the value is stored), and the warning is handed up.
+type c16Warny struct {
+	V string
+}
+
+func (w *c16Warny) UnmarshalOrdered(src any) error {
+	w.V = fmt.Sprint(src)
+	if strings.HasPrefix(w.V, "warn") {
+		return warning.Newf("value %q looks odd", w.V)
+	}
+	return nil
+}
+
+type c16WarnHolder struct {
+	A    string                         `yaml:"a"`
+	M    map[string]c16Warny            `yaml:"m"`
+	L    []c16Warny                     `yaml:"l"`
+	OM   *ordered.Map[string, c16Warny] `yaml:"om"`
+	Rest map[string]c16Warny            `yaml:",inline"`
+}
+
+func c16WarnPhase(c *run.Ctx) {
+	c.Parallel("warn", c.N(3000, 100000), func(i int, r *rand.Rand) {
+		id := run.CaseID("warn", i)
+		n, warns := 0, 0
+		val := func() *doc.Node {
+			n++
+			if r.IntN(3) == 0 {
+				warns++
+				return doc.S(fmt.Sprintf("warn-%d", n))
+			}
+			return doc.S(fmt.Sprintf("fine-%d", n))
+		}
+		mapping := func() *doc.Node {
+			m := &doc.Node{Kind: doc.KMap, Map: []doc.Pair{}}
+			for j, k := 0, r.IntN(5); j < k; j++ {
+				n++
+				m.Map = append(m.Map, doc.P(fmt.Sprintf("k%d", n), val()))
+			}
+			return m
+		}
+		d := &doc.Node{Kind: doc.KMap, Map: []doc.Pair{doc.P("a", doc.S("x"))}}
+		if r.IntN(4) != 0 {
+			d.Map = append(d.Map, doc.P("m", mapping()))
+		}
+		if r.IntN(4) != 0 {
+			l := doc.L()
+			l.Seq = []*doc.Node{}
+			for j, k := 0, r.IntN(5); j < k; j++ {
+				l.Seq = append(l.Seq, val())
+			}
+			d.Map = append(d.Map, doc.P("l", l))
+		}
+		if r.IntN(4) != 0 {
+			d.Map = append(d.Map, doc.P("om", mapping()))
+		}
+		for j, k := 0, r.IntN(4); j < k; j++ {
+			n++
+			d.Map = append(d.Map, doc.P(fmt.Sprintf("extra%d", n), val()))
+		}
+		r.Shuffle(len(d.Map), func(a, b int) { d.Map[a], d.Map[b] = d.Map[b], d.Map[a] })
+		var got c16WarnHolder
+		var uerr error
+		if pi := run.Guard(func() { uerr = ordered.Unmarshal(docToAny(d), &got) }); pi != nil {
+			c.Violation(id, map[string]any{"what": "Unmarshal panicked: " + pi.Value, "document": d.String(), "stack": pi.Stack})
+			return
+		}
+		c.Eval(1)
+		if uerr != nil && !warning.Is(uerr) {
+			c.Violation(id, map[string]any{"what": "document rejected although its elements only warn: " + uerr.Error(), "document": d.String()})
+			return
+		}
+		if (uerr != nil) != (warns > 0) {
+			c.Violation(id, map[string]any{"what": fmt.Sprintf("%d elements answered with a warning, Unmarshal returned %v", warns, uerr), "document": d.String()})
+			return
+		}
+		// every key went to exactly one place, with its value
+		gd := &doc.Node{Kind: doc.KMap, Map: []doc.Pair{doc.P("a", doc.S(got.A))}}
+		plain := func(m map[string]c16Warny) *doc.Node {
+			o := &doc.Node{Kind: doc.KMap, Map: []doc.Pair{}}
+			for k, v := range m {
+				o.Map = append(o.Map, doc.P(k, doc.S(v.V)))
+			}
+			return o
+		}
+		for _, p := range d.Map {
+			switch p.Key {
+			case "a":
+			case "m":
+				gd.Map = append(gd.Map, doc.P("m", plain(got.M)))
+			case "l":
+				l := doc.L()
+				l.Seq = []*doc.Node{}
+				for _, e := range got.L {
+					l.Seq = append(l.Seq, doc.S(e.V))
+				}
+				gd.Map = append(gd.Map, doc.P("l", l))
+			case "om":
+				o := &doc.Node{Kind: doc.KMap, Map: []doc.Pair{}}
+				if got.OM != nil {
+					_ = got.OM.Range(func(k string, v c16Warny) error { o.Map = append(o.Map, doc.P(k, doc.S(v.V))); return nil })
+				}
+				gd.Map = append(gd.Map, doc.P("om", o))
+			}
+		}
+		for k, v := range got.Rest {
+			gd.Map = append(gd.Map, doc.P(k, doc.S(v.V)))
+		}
+		if diff := doc.Equal(d, gd, doc.EqOpts{}); diff != "" {
+			c.Violation(id, map[string]any{"what": "elements that decode themselves (some with a warning): not every key and value arrived in exactly one place: " + diff, "document": d.String(), "result": gd.String(), "warning": fmt.Sprint(uerr)})
+			return
+		}
+		c.Count("documents_with_self_decoding_elements", 1)
+		if warns > 0 {
+			c.Count("documents_with_warning_elements", 1)
+		}
+	})
+}
+
 func checkC16(c *run.Ctx) {
 	c16OrderedPhase(c)
+	c16WarnPhase(c)
 	ntypes := c.N(4000, 100000)
 	ndocs := c.N(20, 50)
 	c.Parallel("type", ntypes, func(i int, r *rand.Rand) {
